@@ -138,6 +138,18 @@ func main() {
 	if mode == "thorough" {
 		tier = 1
 	}
+	// VERIF_ONLY_RUN (development only, honoured only together with VERIF_REPO): keep the runs whose test
+	// pattern contains the given text — to judge one entry alone against a scratch tree
+	if only := os.Getenv("VERIF_ONLY_RUN"); only != "" && os.Getenv("VERIF_REPO") != "" {
+		var keep []Run
+		for _, r := range plan.Runs {
+			if strings.Contains(r.Test, only) {
+				keep = append(keep, r)
+			}
+		}
+		plan.Runs = keep
+		plan.Fuzz = nil
+	}
 	for _, r := range plan.Runs {
 		if r.Race && (tier == 1 || !r.ThoroughOnly) {
 			needRace = true
